@@ -416,7 +416,9 @@ pub fn scenarios(tier: Tier) -> Vec<Arc<dyn Scenario>> {
 }
 
 pub fn all_scenarios(tier: Tier) -> Vec<Arc<dyn Scenario>> {
-    scenarios(tier)
+    let mut v = scenarios(tier);
+    v.extend(super::c06t::scenarios(tier));
+    v
 }
 
 pub fn run(tier: Tier, seed: u64) -> i32 {
@@ -426,6 +428,8 @@ pub fn run(tier: Tier, seed: u64) -> i32 {
     let q = tier == Tier::Quick;
     let p = Params { max_dev: 1, preempt: !q, seeds: vec![seed], time_limit: Duration::from_secs(if q { 25 } else { 1200 }), ..Default::default() };
     rep.add("every frame index x direction x fault kind x timeout pair; healthy idle periods", explore("C06", scenarios(tier), p, &known));
+    let pt = Params { max_dev: if q { 0 } else { 1 }, seeds: vec![seed], time_limit: Duration::from_secs(if q { 15 } else { 600 }), ..Default::default() };
+    rep.add("typed layers (mpsc both ways, broadcast with a keeping-up or lagging subscriber, watch, oneshot, remote trait call in flight or later, remote function) under cut / stall / one-way stall: pending and later operations", explore("C06", super::c06t::scenarios(tier), pt, &known));
     rep.rule = "a case = (fault kind, direction, frame index incl. handshake frames and the chunks of a multi-chunk message, connection_timeout pair, schedule deviations) or a healthy idle period of 20x the larger timeout; distinct = distinct (dispatcher results, operation results, late operation results); non-trivial = the fault became effective (or the case is a healthy-idle case)".into();
     rep.assumptions = vec![
         "virtual time (paused Tokio clock): deadlines are fault time + own timeout (+1 s slack), or peer termination + 1 s when the link is not stalled towards the endpoint".into(),
